@@ -12,6 +12,7 @@ The oracle never looks at dataBuffer/offset/_tempDataBuffer: the n-th byte ever
 written is PATTERN[n], so "exactly the bytes written, in order, each once" is a
 comparison of everything offered to writeSomeData with a slice of PATTERN.
 """
+import errno
 import hashlib
 import itertools
 
@@ -26,6 +27,7 @@ META = dict(
     level_text="Every history of length <= 5 (quick) / <= 6 (thorough) over a 13-operation alphabet with bufferSize=2, SEND_LIMIT=3 is executed, each followed by a fair drain; Hypothesis adds longer histories with five (bufferSize, SEND_LIMIT) configurations including the defaults and writes up to 1 MiB. The fault dimension is the acceptance count of every OS write (0, 1, all-but-one, all, limits +-1, random) and an OS error at any doWrite. Exhaustive only for the stated small scope; sampled beyond.",
     level_note="Trusted: the harness' reactor double (writer-set discipline and the disconnect path copied from posixbase._disconnectSelectable), the scripted producers, Python bytes. Liveness ('eventually closed') is checked as quiescence under a fair continuation (accept-everything doWrites while the descriptor asks to write).",
     design_ref="§5 C14",
+    assumptions=["socket-level layers: the operating system is a scripted socket object (send/sendmsg return counts or raise EWOULDBLOCK / ENOBUFS / EINTR / EPIPE); the real tcp.Connection.writeSomeData and unix._SendmsgMixin.writeSomeData run on top of it"],
     rule="case = (bufferSize, SEND_LIMIT, op list). non-trivial = the history contains a zero-byte acceptance with data pending and a partial acceptance, at least one of them at a two-level moment (data left over from an earlier doWrite and newer writes queued behind it); distinct by the whole case.",
 )
 
@@ -35,6 +37,11 @@ PLEN = len(PATTERN)
 ACCEPT_ALL = -1
 ACCEPT_ALL_BUT_ONE = -2
 ACCEPT_ERR = -3
+# socket-level layers only: how the OS says "nothing accepted now" / gets interrupted
+ACCEPT_EWOULDBLOCK = -4
+ACCEPT_ENOBUFS = -5
+ACCEPT_EINTR_THEN_ALL = -6
+TRANSIENT = (ACCEPT_EWOULDBLOCK, ACCEPT_ENOBUFS)
 ONESHOT = "writesequence-oneshot-iterable-dropped"
 
 
@@ -150,6 +157,74 @@ def _fd_class():
     return _FD[0]
 
 
+class _Sock:
+    """The operating system at the socket API: every send()/sendmsg() is decided by the case."""
+
+    def __init__(self, h):
+        self.h = h
+        self.closed = False
+        self.shut = []
+
+    def setblocking(self, flag):
+        pass
+
+    def fileno(self):
+        return -1 if self.closed else 9
+
+    def send(self, data):
+        return self.h.sock_send(data)
+
+    def sendmsg(self, buffers, ancdata=(), flags=0):
+        return self.h.sock_sendmsg(buffers, ancdata)
+
+    def shutdown(self, how):
+        self.shut.append(how)
+
+    def close(self):
+        self.closed = True
+
+    def setsockopt(self, *a):
+        pass
+
+    def getsockopt(self, *a):
+        return 0
+
+
+_SOCK_T = {}
+
+
+def _sock_transport_class(layer):
+    """tcp.Connection (layer 'tcp') or unix._SendmsgMixin + tcp.Connection (layer 'unix',
+    composed like unix.Server) with the same observation hooks as the plain descriptor."""
+    if layer not in _SOCK_T:
+        from twisted.internet import tcp, unix
+
+        class Hooks:
+            def _closeWriteConnection(self):
+                self.h.on_write_closed()
+                tcp.Connection._closeWriteConnection(self)
+
+            def connectionLost(self, reason):
+                if not hasattr(self, "socket"):
+                    return
+                self.h.on_connection_lost(reason)
+                tcp.Connection.connectionLost(self, reason)
+                self.h.after_connection_lost()
+
+        if layer == "tcp":
+            class T(Hooks, tcp.Connection):
+                pass
+        else:
+            class T(Hooks, unix._SendmsgMixin, tcp.Connection):
+                _writeSomeDataBase = tcp.Connection
+
+                def __init__(self, skt, protocol, reactor):
+                    unix._SendmsgMixin.__init__(self)
+                    tcp.Connection.__init__(self, skt, protocol, reactor)
+        _SOCK_T[layer] = T
+    return _SOCK_T[layer]
+
+
 class _H:
     """One history: the real descriptor, the reactor double and the model."""
 
@@ -162,8 +237,21 @@ class _H:
         self.bs = case["bs"]
         self.sl = case["sl"]
         self.reactor = _Reactor()
-        self.fd = _fd_class()(self.reactor)
+        self.layer = case.get("layer", "fd")
+        if self.layer == "fd":
+            self.fd = _fd_class()(self.reactor)
+        else:
+            from twisted.internet.protocol import Protocol
+            self.sock = _Sock(self)
+            self.fd = _sock_transport_class(self.layer)(self.sock, Protocol(), self.reactor)
+            self.fd.connected = 1
         self.fd.h = self
+        self.fdq = []             # descriptors queued with sendFileDescriptor (unix layer), not yet sent
+        self.fds_sent = []
+        self.next_fileno = 100
+        self.fd_budget = -1
+        self.eintr_done = False
+        self.refused_midway = False
         self.fd.bufferSize = self.bs
         self.fd.SEND_LIMIT = self.sl
         self.fd.startReading()
@@ -243,9 +331,20 @@ class _H:
         k = self.accept
         if k == ACCEPT_ERR:
             self.err_returned = self.main.CONNECTION_LOST
+            if self.layer != "fd":
+                raise OSError(errno.EPIPE, "Broken pipe")
             return self.err_returned
+        if k == ACCEPT_EINTR_THEN_ALL:
+            if self.layer != "fd" and not self.eintr_done:
+                self.eintr_done = True
+                self.os_calls -= 1
+                self.ctx.count("send() interrupted (EINTR), retried")
+                raise OSError(errno.EINTR, "Interrupted system call")
+            k = ACCEPT_ALL
         if k == ACCEPT_ALL:
             a = n
+        elif k in TRANSIENT:
+            a = 0
         elif k == ACCEPT_ALL_BUT_ONE:
             a = max(0, n - 1)
         else:
@@ -271,7 +370,58 @@ class _H:
         if self.acc == self.total:
             self.drained = True
             self.acc_since_empty = 0
+        if k in TRANSIENT and self.layer != "fd":
+            self.ctx.count("send() refused with " + ("EWOULDBLOCK" if k == ACCEPT_EWOULDBLOCK else "ENOBUFS"))
+            raise OSError(errno.EWOULDBLOCK if k == ACCEPT_EWOULDBLOCK else errno.ENOBUFS, "no room now")
         return a
+
+    def sock_send(self, data):
+        return self.os_write(data)
+
+    def sock_sendmsg(self, buffers, ancdata):
+        """One descriptor travelling with one byte of the stream (unix layer)."""
+        import struct
+        if not self.in_dowrite:
+            self.fail("os-write-outside-dowrite", "sendmsg called outside doWrite")
+        data = b"".join(bytes(b) for b in buffers)
+        fileno = struct.unpack("i", ancdata[0][2])[0]
+        if self.fd_budget == 0:
+            # the kernel buffer fills up part-way through the descriptor queue
+            self.ctx.count("sendmsg() refused" + (" after earlier descriptors of the same doWrite went out"
+                                                  if self.fds_this_dowrite else " on the first descriptor"))
+            if self.fds_this_dowrite:
+                self.refused_midway = True
+            raise OSError(errno.ENOBUFS if self.accept == ACCEPT_ENOBUFS else errno.EWOULDBLOCK, "no room now")
+        if self.fd_budget > 0:
+            self.fd_budget -= 1
+        if len(data) != 1 or self.acc + 1 > self.total or data != PATTERN[self.acc:self.acc + 1]:
+            self.fail("os-bytes-not-the-written-stream",
+                      f"sendmsg carried {data!r} with descriptor {fileno}; the stream continues at offset {self.acc} "
+                      f"with {PATTERN[self.acc:self.acc + 1]!r} (written so far {self.total})")
+        if not self.fdq or self.fdq[0] != fileno:
+            self.fail("descriptor-sent-twice-or-out-of-order", f"descriptor {fileno} sent, queue is {self.fdq}")
+        self.fdq.pop(0)
+        self.fds_sent.append(fileno)
+        self.fds_this_dowrite += 1
+        self.ctx.count("descriptor sent with one stream byte")
+        self.acc += 1
+        self.acc_since_empty += 1
+        if self.acc == self.total:
+            self.drained = True
+            self.acc_since_empty = 0
+        return 1
+
+    def op_sendfd(self):
+        """sendFileDescriptor: only legal with at least as many unsent bytes as queued descriptors."""
+        if self.layer != "unix" or not self.connected or self.write_closed or len(self.fdq) >= 20 \
+                or len(self.fdq) + 1 > self.unsent():
+            self.ctx.count("sendFileDescriptor skipped (not legal here)")
+            return
+        self.fdq.append(self.next_fileno)
+        self.fd.sendFileDescriptor(self.next_fileno)
+        self.next_fileno += 1
+        self.ctx.count("sendFileDescriptor")
+        self._writer_obligation()
 
     # -- observed events ----------------------------------------------------
     def on_write_closed(self):
@@ -392,11 +542,15 @@ class _H:
         self.losew_req = True
         self.fd.loseWriteConnection()
 
-    def op_dowrite(self, k):
+    def op_dowrite(self, k, fd_budget=-1):
         if not self.connected or self.fd not in self.reactor.writers:
             self.ctx.count("doWrite skipped (not a registered writer)")
             return
         self.accept = k
+        self.fd_budget = fd_budget
+        self.fds_this_dowrite = 0
+        self.eintr_done = False
+        refused_fd = False
         self.drained = False
         self.err_returned = None
         p0 = self.prod
@@ -410,8 +564,14 @@ class _H:
         self.ctx.count("doWrite")
         self.leftover_from_prev = self.unsent()
         self.written_since_dw = 0
-        if self.os_calls != calls0 + 1:
+        refused_fd = self.layer == "unix" and self.fd_budget == 0 and self.fdq and self.os_calls == calls0
+        if self.os_calls != calls0 + 1 and not refused_fd:
             self.fail("dowrite-os-call-count", f"doWrite made {self.os_calls - calls0} OS writes")
+        if (k in TRANSIENT or refused_fd) and self.err_returned is None and r is not None \
+                and not isinstance(r, self.error.ConnectionDone):
+            self.fail("transient-os-refusal-treated-as-error",
+                      f"the OS accepted nothing for now ({'ENOBUFS' if k == ACCEPT_ENOBUFS else 'EWOULDBLOCK'}); "
+                      f"doWrite returned {r!r} instead of keeping the data for the next attempt")
         if self.err_returned is not None:
             if r is not self.err_returned:
                 self.fail("os-error-swallowed", f"writeSomeData returned {self.err_returned!r}, doWrite returned {r!r}")
@@ -489,7 +649,9 @@ class _H:
             elif k == "losew":
                 self.op_losew()
             elif k == "dw":
-                self.op_dowrite(op[1])
+                self.op_dowrite(op[1], op[2] if len(op) > 2 else -1)
+            elif k == "fd":
+                self.op_sendfd()
             elif k == "pause":
                 self.fd.pauseProducing()
             elif k == "resume":
@@ -609,6 +771,69 @@ def _ops_strategy(bs, sl, oneshot, maxlen):
     return st.lists(op, min_size=1, max_size=maxlen).map(lambda ops: dict(bs=bs, sl=sl, ops=ops))
 
 
+# ---------------------------------------------------------------------------
+# the same buffering under the real socket-level writeSomeData implementations
+
+TCP_ALPHABET = [
+    ["w", 1], ["w", 3], ["lose"], ["losew"],
+    ["dw", 1], ["dw", ACCEPT_ALL], ["dw", ACCEPT_EWOULDBLOCK], ["dw", ACCEPT_ENOBUFS],
+    ["dw", ACCEPT_EINTR_THEN_ALL], ["dw", ACCEPT_ERR],
+]
+UNIX_ALPHABET = [
+    ["w", 1], ["w", 3], ["fd"], ["lose"],
+    ["dw", ACCEPT_ALL], ["dw", 1],
+    ["dw", ACCEPT_ALL, 0], ["dw", ACCEPT_ALL, 1], ["dw", ACCEPT_ENOBUFS, 1], ["dw", ACCEPT_ENOBUFS, 2],
+]
+DEFAULT_BS, DEFAULT_SL = 65536, 131072
+
+
+def _enum_sock_shard(ctx, arg):
+    layer, first, length = arg
+    alphabet = TCP_ALPHABET if layer == "tcp" else UNIX_ALPHABET
+    bs, sl = (SMALL_BS, SMALL_SL) if layer == "tcp" else (DEFAULT_BS, DEFAULT_SL)
+
+    def cases():
+        for rest in itertools.product(range(len(alphabet)), repeat=length - 1):
+            yield dict(layer=layer, bs=bs, sl=sl, ops=[alphabet[first]] + [alphabet[i] for i in rest])
+    enumerate_run(ctx, cases(), run_case)
+
+
+@functools.lru_cache(maxsize=None)
+def _sock_strategy(layer, bs, sl, maxlen):
+    edge = sorted({0, 1, 2, bs - 1, bs, bs + 1, sl - 1, sl, sl + 1})
+    if layer == "unix":
+        size = st.integers(0, 40)        # unsent data stays far below SEND_LIMIT (see op_sendfd)
+    elif bs >= 65536:
+        size = st.one_of(st.sampled_from(edge), st.integers(0, 18).flatmap(lambda e: st.integers(0, 1 << e)))
+    else:
+        size = st.one_of(st.sampled_from(edge), st.integers(0, 3 * max(bs, sl)))
+    accept = st.one_of(
+        st.just(ACCEPT_ALL), st.just(ACCEPT_EWOULDBLOCK), st.just(ACCEPT_ENOBUFS), st.just(ACCEPT_EINTR_THEN_ALL),
+        st.sampled_from([1, ACCEPT_ALL_BUT_ONE, 0]), size,
+        st.integers(0, 25).map(lambda i: ACCEPT_ERR if i == 0 else i))
+    step = st.tuples(st.lists(size, max_size=3),
+                     st.sampled_from([None, None, None, "unreg", "lose", "unreg+lose"])).map(list)
+    ops = [
+        st.tuples(st.just("w"), size), st.tuples(st.just("w"), size),
+        st.tuples(st.just("ws"), st.lists(size, max_size=4), st.sampled_from(["list", "tuple"])),
+        st.tuples(st.just("reg"), st.booleans(), st.lists(step, max_size=3)),
+        st.just(("unreg",)), st.just(("lose",)), st.just(("losew",)),
+        st.sampled_from([("pause",), ("resume",)]),
+    ]
+    if layer == "unix":
+        fdk = st.one_of(st.just(-1), st.integers(0, 4))
+        ops += [st.just(("fd",))] * 3 + [st.tuples(st.just("dw"), accept, fdk)] * 4
+    else:
+        ops += [st.tuples(st.just("dw"), accept)] * 4
+    return st.lists(st.one_of(ops).map(list), min_size=1, max_size=maxlen).map(
+        lambda o: dict(layer=layer, bs=bs, sl=sl, ops=o))
+
+
+def sock_histories():
+    return st.one_of([_sock_strategy("tcp", bs, sl, n) for bs, sl in [(2, 3), (8, 16), (DEFAULT_BS, DEFAULT_SL)]
+                      for n in (8, 20)] + [_sock_strategy("unix", DEFAULT_BS, DEFAULT_SL, n) for n in (8, 20, 30)])
+
+
 def histories(big=False):
     if big:
         return st.one_of([_ops_strategy(CONFIGS[-1][0], CONFIGS[-1][1], False, n) for n in (8, 16, 30)])
@@ -620,6 +845,7 @@ def histories(big=False):
 
 def _hyp_shard(ctx, i):
     hyp_run(ctx, histories(), run_case, 8000, label=f"shard{i}")
+    hyp_run(ctx, sock_histories(), run_case, 3000, label=f"sockshard{i}")
     hyp_run(ctx, histories(big=True), run_case, 400, label=f"bigshard{i}")
 
 
@@ -635,8 +861,20 @@ def run(ctx):
     ctx.exhaustive = False
     if ctx.has_violation():
         return
+    # socket level: tcp.Connection.writeSomeData / unix._SendmsgMixin.writeSomeData over a scripted socket
+    slen = ctx.pick(4, 5)
+    sshards = [(layer, f, n) for layer, alpha in (("tcp", TCP_ALPHABET), ("unix", UNIX_ALPHABET))
+               for n in range(1, slen + 1 + (layer == "unix")) for f in range(len(alpha)) if alpha[f][0] != "dw"]
+    ctx.shards(_enum_sock_shard, sshards, procs=ctx.pick(1, None))
+    ctx.extra["exhaustive_scope_socket_level"] = (
+        f"all histories of length 1..{slen} over {len(TCP_ALPHABET)} operations on tcp.Connection (bufferSize={SMALL_BS}, "
+        f"SEND_LIMIT={SMALL_SL}) and of length 1..{slen + 1} over {len(UNIX_ALPHABET)} operations on unix._SendmsgMixin+tcp.Connection (defaults), "
+        "send()/sendmsg() scripted: count, EWOULDBLOCK, ENOBUFS, EINTR, EPIPE")
+    if ctx.has_violation():
+        return
     if ctx.thorough:
         ctx.shards(_hyp_shard, list(range(16)))
     else:
         hyp_run(ctx, histories(), run_case, 1500, label="histories")
         hyp_run(ctx, histories(big=True), run_case, 150, label="big")
+        hyp_run(ctx, sock_histories(), run_case, 500, label="socket-level")
